@@ -65,6 +65,9 @@ def b_level0(ch):
     d.add_cell(HCell(19, (':', -1, 5), imp=ch.choose('imp19', [0, 1])))
     d.rho_cls[19] = None
     d.mats = {1: '13027 1', 2: '26056 0.9 26054 0.1'}
+    # the association must not depend on the other output switches
+    d.options = ch.choose('options', [[], ['--skip-compositions'], ['--skip-boundary-conditions'],
+                                      ['--skip-compositions', '--skip-boundary-conditions']])
     return d.finish()
 
 
@@ -139,7 +142,7 @@ def check_state(scn, st, corrupt=False, result=None):
         return verdict(False, st, cls={'kind': 'exception', 'exc': r.exc_type},
                        msg='conversion failed: %s\n%s' % (r.brief(), st.deck_text), out='err:' + r.exc_type)
     t4 = t4read.parse(r.t4)
-    cls, msg = oracle.structural_cls(t4)
+    cls, msg = oracle.structural_cls(t4, st.options)
     if cls:
         return verdict(False, st, cls=cls, msg=msg + '\n' + st.deck_text + r.body[:1500], out=sha(r.body))
     P, info = oracle.probe_points(t4, c05.ref_planes(st))
